@@ -44,7 +44,7 @@ Print Assumptions C04_safe_text_preserved.
 
 (* ... and valid UTF-8 is exactly what is preserved: the check refuses nothing that could have been stored *)
 Theorem C04_preserved_iff_valid l : Accept.stored l = l <-> Accept.valid l = true.
-Proof. split; [exact (Accept.stored_valid l)|exact (Accept.valid_stored l)]. Qed.
+Proof. exact (Accept.preserved_iff_valid l). Qed.
 Print Assumptions C04_preserved_iff_valid.
 
 (* pinned Safe/SafeOneLine range over the string: an invalid byte looks like U+FFFD, is accepted, and is stored as
@@ -77,7 +77,7 @@ Print Assumptions C04_stale_commit_refuted.
 (* a name cleaned the way git does is left as it is by go-git's decoder: the commit encoded again to verify its
    signature is the commit that has been signed; and it has no character that ends a name or a header line *)
 Theorem C04_clean_name_survives l : Accept.gogit_name (Accept.clean l) = Accept.clean l /\ forall x, In x (Accept.clean l) -> Accept.forbidden x = false.
-Proof. split; [exact (Accept.clean_survives_gogit l)|exact (Accept.clean_no_forbidden l)]. Qed.
+Proof. exact (Accept.clean_name_survives l). Qed.
 Print Assumptions C04_clean_name_survives.
 Theorem C04_pinned_name_refuted : exists l, Accept.gogit_name (Accept.pinned_clean l) <> Accept.pinned_clean l.
 Proof. exact Accept.pinned_clean_refuted. Qed.
